@@ -4,6 +4,8 @@
 // thread ops: y yield   z usleep(10us)   m migrate self to the next vCPU   s sleep until interrupted (usleep(-1))
 //             (s sleeps 1 s of virtual time)   i<k> interrupt thread k   M<k> migrate thread k (must be READY on my vCPU) to the next vCPU
 //             I<v> interrupt the main (joining) thread of vCPU v
+//             a vCPU written X<k> has no threads of its own: its main thread spins (no photon yield) until thread k has been migrated to
+//             it and then leaves at once, so vcpu_fini() itself has to run whatever sits in the standby queue
 //             a leading 'n' makes the thread non-joinable. Every joinable thread is joined by its creating vCPU's main thread.
 #include <photon/thread/thread.h>
 #include <photon/thread/stack-allocator.h>
@@ -18,6 +20,7 @@ struct PT { std::string ops; int os, idx; bool joinable; thread* th = nullptr; j
             int runs = 0, step = 0, on = -1; bool finished = false; bool joined = false; };
 struct St {
     std::vector<PT> pts; int nos = 0; bool ws = false; char alloc = 'f';
+    int exit_early[8] = {0}; std::atomic<int> migrated[16];
     vcpu_base* vcpus[8] = {nullptr}; thread* mains[8] = {nullptr}; std::atomic<int> main_gone[8];
     std::atomic<int> go{0}, ready{0}, done{0}, finished_os{0};
     std::string log;
@@ -52,7 +55,7 @@ static void* entry(void* arg) {
             case 'm': { int v = my_vcpu(); thread_migrate(CURRENT, G->vcpus[(v + 1) % G->nos]); break; }
             case 'i': { int k = p.ops[++i] - '0'; if (G->pts[k].th && !G->pts[k].finished) thread_interrupt(G->pts[k].th, EINTR); break; }
             case 'I': { int k = p.ops[++i] - '0'; if (G->mains[k] && !G->main_gone[k].load()) { thread_interrupt(G->mains[k], EINTR); G->log += G->pts[0].finished ? 'F' : 'r'; } break; }
-            case 'M': { int k = p.ops[++i] - '0'; int v = my_vcpu(); if (G->pts[k].th && !G->pts[k].finished) thread_migrate(G->pts[k].th, G->vcpus[(v + 1) % G->nos]); break; }
+            case 'M': { int k = p.ops[++i] - '0'; int v = my_vcpu(); if (G->pts[k].th && !G->pts[k].finished) { int r = thread_migrate(G->pts[k].th, G->vcpus[(v + 1) % G->nos]); if (r == 0) G->migrated[k] = 1; } break; }
         }
     }
     if (p.step != expect) pmc_violation("step-repeated-or-skipped", "thread %d finished with step counter %d (expected %d)", p.idx, p.step, expect);
@@ -68,10 +71,11 @@ static void on_deadlock(const char* dump) {
 
 void pmc_run(const char* config) {
     St st; G = &st;
-    st.ws = config[0] == '1'; st.alloc = config[1]; for (auto& x : st.main_gone) x = 0;
+    st.ws = config[0] == '1'; st.alloc = config[1]; for (auto& x : st.main_gone) x = 0; for (auto& x : st.migrated) x = 0;
     { std::string cur; int os = 0;
       for (const char* c = config + 3;; c++) {
           if (*c == ',' || *c == '|' || *c == 0) {
+              if (!cur.empty() && cur[0] == 'X') { st.exit_early[os] = cur[1] - '0' + 1; cur.clear(); }
               if (!cur.empty()) { PT p; p.ops = cur; p.os = os; p.idx = st.pts.size(); p.joinable = cur[0] != 'n'; st.pts.push_back(p); cur.clear(); }
               if (*c == '|') os++;
               if (*c == 0) break;
@@ -97,6 +101,13 @@ void pmc_run(const char* config) {
             }
             G->ready++;
             while (G->go.load() == 0) {}
+            if (G->exit_early[os]) {
+                // leave as soon as the thread has arrived in this vCPU's standby queue: vcpu_fini() must run it to completion
+                while (G->migrated[G->exit_early[os] - 1].load() == 0) {}
+                G->main_gone[os] = 1;
+                if (++G->finished_os == G->nos) pmc_window(0);
+                return;
+            }
             // the creating vCPU joins its joinable threads (wherever they ended up running)
             for (auto& p : G->pts) if (p.os == os && p.joinable) {
                 uint64_t sw0 = *(uint64_t*)&get_vcpu()->switch_count;
@@ -143,6 +154,8 @@ static const PmcConfig CFG[] = {
     {"0f:yI0y,y|",        3, {1,2}, {0,0}, {0,0}, {0,0}, "the joiner is interrupted while it waits in thread_join (same vCPU)"},
     {"0f:yy|I0y",         3, {2,3}, {0,0}, {0,0}, {0,0}, "the joiner is interrupted from another vCPU"},
     {"0f:mzy|yI0",        2, {2,2}, {0,0}, {0,0}, {0,0}, "joiner interrupted while its thread runs elsewhere"},
+    {"0f:M1,y|X1",        3, {1,2}, {0,0}, {0,0}, {0,0}, "a thread migrated into a vCPU that goes straight into vcpu_fini(): it must still run"},
+    {"0f:M1M2,y,ny|X2",   3, {1,2}, {0,0}, {0,0}, {0,0}, ""},
     {"0f:mym|ymy",        2, {1,2}, {0,0}, {0,0}, {0,0}, "ping-pong migration"},
     {"1f:m,yyy|",         3, {1,2}, {0,0}, {0,0}, {0,0}, "stealing: vCPU1 receives a migrated thread, then steals from vCPU0's run queue"},
     {"1f:m,yy,yy|",       3, {1,2}, {0,0}, {0,0}, {0,0}, ""},
